@@ -4,6 +4,7 @@ import (
 	"bytes"
 	"fmt"
 	"runtime"
+	"sort"
 	"strings"
 	"sync"
 	"time"
@@ -329,9 +330,80 @@ func runC08(c *Ctx) {
 // with whole lines still queued behind it, and only then does the server read what is left. Whatever reaches the
 // server must still be whole lines of calls that were made - at most the very last one cut short by the closing
 // socket - however the teardown treats the queue.
+// c08PreConnect: command methods called on a client that has never been connected, then the first Connect. Whether such
+// early lines are ever written is the library's choice; if they are, they are whole single commands of their method
+// like any others.
+func c08PreConnect(c *Ctx, idx int) {
+	r := rig.Rand(c.Seed, "C08", "preconnect", idx)
+	s := NewSession(SessionOpts{Flood: true})
+	defer s.Release()
+	allowed := map[string]bool{}
+	n := 1 + r.Intn(5)
+	for k := 0; k < n; k++ {
+		tag := fmt.Sprintf("p%dk%d", idx, k)
+		text := []string{tag + "\r\nOPER root hunter2", tag + "\nKICK #c victim", tag + "\rQUIT", tag}[r.Intn(4)]
+		eff := text
+		if i := strings.IndexAny(eff, "\r\n"); i >= 0 {
+			eff = eff[:i]
+		}
+		switch r.Intn(3) {
+		case 0:
+			allowed["PRIVMSG #c :"+eff] = true
+			go s.Conn.Privmsg("#c", text)
+		case 1:
+			allowed["TOPIC #c :"+eff] = true
+			go s.Conn.Topic("#c", text)
+		default:
+			allowed["AWAY :"+eff] = true
+			go s.Conn.Away(text)
+		}
+	}
+	time.Sleep(time.Duration(100+r.Intn(900)) * time.Microsecond)
+	mc, err := s.Connect()
+	if err != nil {
+		c.R.Inconcl("connect: " + err.Error())
+		return
+	}
+	if !AwaitRegistration(mc) || !s.WireMarker(mc) {
+		c.R.Inconcl(fmt.Sprintf("%s: registration / marker not seen", Case("preconnect", idx)))
+		return
+	}
+	c.R.Eval(1)
+	raw := mc.Transcript()
+	for _, l := range mc.Lines() {
+		switch {
+		case strings.HasPrefix(l, "NICK "), strings.HasPrefix(l, "USER "), strings.HasPrefix(l, "PONG :sync-"), allowed[l]:
+		default:
+			c.R.Violate(rig.Violation{Sig: "c08|preconnect-foreign-line", Detail: fmt.Sprintf("line %q reached the server after calls made before the first Connect; it is not a whole line of any of them (allowed: %q)", clipS(l), keysOfBool(allowed)), Case: Case("preconnect", idx)})
+			go s.Conn.Close()
+			return
+		}
+	}
+	if bytes.Count(raw, []byte("\n")) != bytes.Count(raw, []byte("\r\n")) || bytes.Count(raw, []byte("\r")) != bytes.Count(raw, []byte("\r\n")) {
+		c.R.Violate(rig.Violation{Sig: "c08|preconnect-framing", Detail: "bare CR or LF on the wire after calls made before the first Connect", Case: Case("preconnect", idx)})
+	}
+	c.R.Count("preconnect_rounds", 1)
+	go s.Conn.Close()
+}
+
+func keysOfBool(m map[string]bool) []string {
+	var out []string
+	for k := range m {
+		out = append(out, k)
+	}
+	sort.Strings(out)
+	return out
+}
+
 func runC08Ending(c *Ctx) {
 	rounds := c.Pick(40, 600)
 	procs := c.Arg("procs", "?")
+	for idx := 0; idx < c.Pick(20, 200); idx++ {
+		if c.Want("preconnect", idx) {
+			c.J.Log("CASE %s", Case("preconnect", idx))
+			c08PreConnect(c, idx)
+		}
+	}
 	for idx := 0; idx < rounds; idx++ {
 		if !c.Want("ending", idx) {
 			continue
